@@ -850,7 +850,7 @@ SUBS = [
     Sub("fixed_table", check_fixed, strategy=strat_fixed, quick=400, thorough=8000, workers_quick=4),
     Sub("delimited_table", check_delim, strategy=strat_delim, quick=350, thorough=8000, workers_quick=4),
     Sub("kv", check_kv, strategy=strat_kv, quick=350, thorough=8000, workers_quick=4),
-    Sub("search", check_search, strategy=strat_search, quick=450, thorough=10000, workers_quick=4),
+    Sub("search", check_search, strategy=strat_search, quick=450, thorough=8000, workers_quick=4),
     Sub("ini", check_ini, strategy=strat_ini, quick=350, thorough=6000, workers_quick=4),
 ]
 
